@@ -3,7 +3,7 @@ From Coq Require Import NArith List Bool.
 From Verif Require Import Sx Str Tok Tree.
 From Verif.Gen Require Import Consts Sax.
 From Verif.Model Require Import C11.
-From Verif.Proofs Require Import C11.
+From Verif.Proofs Require Import C11 C11e.
 Import ListNotations.
 Local Open Scope N_scope.
 
@@ -46,9 +46,20 @@ Theorem c11_rebuild_walk : forall kids, forallb (wf_node voidElements html_ns) k
   trebuild (walk_all voidElements html_ns kids) [] [] = Some (tnorm kids).
 Proof. exact rebuild_walk. Qed.
 
-(* PARTIAL: the ElementTree walker's cursor arithmetic (Model/C11.v: ewalk over the .text/.tail
-   representation) is modelled and tied to the real walker by exact-agreement correspondence, and compared with
-   the DOM walker on every generated tree, but "ewalk (toE t) = walk (coalesce t)" is not yet a theorem. *)
+(* the ElementTree walker's cursor arithmetic -- (element, key, parents, flag) cursors over the .text/.tail
+   representation, getFirstChild / getNextSibling / getParentNode -- emits, for EVERY tree in that representation,
+   exactly the recursive walk of it: start tag, the element's text, each child followed by its tail, end tag
+   (ewalk_ref); from an element, and from a document or fragment root (whose own tags are suppressed) *)
+Theorem c11_etree_cursor_walk_element : forall e fuel, (2 * esize e <= fuel)%nat ->
+  ewalk fuel false e = Some (ewalk_ref e).
+Proof. exact ewalk_element. Qed.
+Theorem c11_etree_cursor_walk_document : forall ns name a t kids fuel, (2 * esize (EEl ns name a t kids) <= fuel)%nat ->
+  ewalk fuel true (EEl ns name a t kids) = Some (text_tokens t ++ kids_ref kids).
+Proof. exact ewalk_document. Qed.
+
+(* PARTIAL: that the recursive walk of the .text/.tail representation of a tree equals the walk of the tree itself
+   with adjacent text joined ("ewalk_ref (toE t) = walk (coalesce t)") is compared on every generated tree (etree vs
+   DOM walker on the same document) but is not yet a theorem. *)
 
 (* non-vacuity: <p>a <br><!--c-->b</p> walked from the element *)
 Example c11_example :
